@@ -2,6 +2,7 @@ package props
 
 import (
 	"fmt"
+	"strings"
 
 	"golang.org/x/tools/go/ssa"
 
@@ -35,7 +36,11 @@ func init() {
 			fmt.Printf("    under %s\n", e.PathCond(s.Instr.Block(), nil))
 		}
 		for _, r := range flow.Returns(fn) {
-			fmt.Printf("return @%s under %s\n", p.Rel(r.Pos()), e.PathCond(r.Block(), nil))
+			fmt.Printf("return @%s under %s\n", p.Rel(r.Pos()), e.PathCond(r.Block(), nil).Pretty())
+			if len(args) > 2 && len(fn.Params) > 0 {
+				// dump flow <pkg> <fn> a.b.c: content of (*param0).a.b.c at each return
+				fmt.Printf("    $0.%s = %s\n", args[2], e.SelectAddr(fn.Params[0], strings.Split(args[2], "."), r))
+			}
 			for i, v := range r.Results {
 				fmt.Printf("    res%d = %s\n", i, e.Select(v, nil, r))
 			}
